@@ -255,6 +255,52 @@ theorem createResponse_modules {look : Look} {req : Request} {table : List (Lib 
           rw [q2] at this
           simp [isOk] at this
 
+/-! ### the file paths a response reports (used by C09) -/
+
+theorem reportedFiles_directSymbol {look : Look} {lib : Lib} {a : Nat} {f : Nat → Option AddrInfo}
+    {info : AddrInfo} {sym : Symbol} (hl : look lib = .ok f) (hf : f a = some info)
+    (hs : directSymbol look lib a = some sym) (hne : info.frames.resolved ≠ some []) (p : String) :
+    p ∈ sym.reportedFiles ↔ ∃ fp ∈ info.filePaths, apiFilePath fp = p := by
+  unfold directSymbol at hs
+  simp only [hl, hf, Option.some.injEq] at hs
+  subst hs
+  unfold Symbol.reportedFiles AddrInfo.filePaths
+  cases hres : info.frames.resolved with
+  | none => simp
+  | some fs =>
+    simp only
+    cases hlast : fs.getLast? with
+    | none =>
+      have : fs = [] := by simpa using hlast
+      subst this
+      exact absurd hres hne
+    | some outer =>
+      have hfs : fs.dropLast ++ [outer] = fs := by
+        obtain ⟨ys, rfl⟩ := List.getLast?_eq_some_iff.mp hlast
+        simp
+      simp only [debugInfoOfFrames, hlast, debugInfoFrom]
+      rw [← hfs]
+      simp only [List.mem_append, List.mem_filterMap, List.mem_map, inlineOf, List.filterMap_append,
+        Option.mem_toList, List.dropLast_concat]
+      constructor
+      · rintro (h | ⟨x, ⟨fr, hfr, rfl⟩, hx⟩)
+        · cases hfp : outer.filePath with
+          | none => simp [hfp] at h
+          | some fp =>
+            simp only [hfp, Option.map_some, Option.some.injEq] at h
+            exact ⟨fp, Or.inr ⟨outer, by simp, hfp⟩, h⟩
+        · simp only at hx
+          cases hfp : fr.filePath with
+          | none => simp [hfp] at hx
+          | some fp =>
+            simp only [hfp, Option.map_some, Option.some.injEq] at hx
+            exact ⟨fp, Or.inl ⟨fr, hfr, hfp⟩, hx⟩
+      · rintro ⟨fp, (⟨fr, hfr, hfp⟩ | ⟨fr, hfr, hfp⟩), hp⟩
+        · exact Or.inr ⟨_, ⟨fr, hfr, rfl⟩, by simp [hfp, hp]⟩
+        · simp only [List.mem_singleton] at hfr
+          subst hfr
+          exact Or.inl (by simp [hfp, hp])
+
 /-! ### serde's number checks -/
 
 theorem decodeStack_none_iff (st : List (Int × Int)) :
